@@ -455,7 +455,9 @@ class CopyStreamResult(StreamResult):
 
     def __init__(self, targets):
         super().__init__()
-        self.targets = targets
+        # A list of our own: the caller may go on using (and changing) the
+        # object it passed, and any iterable will do.
+        self.targets = list(targets)
 
     def startTestRun(self):
         super().startTestRun()
